@@ -112,10 +112,11 @@ type SchedCfg struct {
 	MaxJitter int64 `json:"max_jitter"` // ns per step (upper bound)
 	StickyPct int   `json:"sticky_pct"` // probability to keep running the same goroutine
 	MaxSteps  int   `json:"max_steps"`
-	HorizonNs int64 `json:"horizon_ns"` // simulated time without any activity => quiescent
-	PCTDepth  int   `json:"pct_depth"`  // >0: priority scheduling with that many change points
-	PCTLen    int   `json:"pct_len"`    // expected run length for change point placement
-	Dense     bool  `json:"dense,omitempty"` // scheduling points before every statement of the library (rewriter rule R9)
+	HorizonNs int64 `json:"horizon_ns"`           // simulated time without any activity => quiescent
+	PCTDepth  int   `json:"pct_depth"`            // >0: priority scheduling with that many change points
+	PCTLen    int   `json:"pct_len"`              // expected run length for change point placement
+	Dense     bool  `json:"dense,omitempty"`      // scheduling points before every statement of the library (rewriter rule R9)
+	OldTimers bool  `json:"old_timers,omitempty"` // timer channels as before Go 1.23: a tick not received survives Stop/Reset (R13)
 }
 
 type Case struct {
@@ -166,25 +167,25 @@ type Violation struct {
 }
 
 type Result struct {
-	RunSeed      uint64           `json:"run_seed"`
-	Index        int              `json:"index"`
-	Violations   []Violation      `json:"violations,omitempty"`
-	Inconclusive string           `json:"inconclusive,omitempty"`
-	Void         string           `json:"precondition_void,omitempty"`
-	Steps        int64            `json:"steps"`
-	SimNs        int64            `json:"sim_ns"`
-	Preempt      int              `json:"preemptions"`
-	TraceHash    string           `json:"trace_hash"`
-	SchedHash    uint64           `json:"sched_hash"`
-	Probes       map[string]int64 `json:"probes,omitempty"`
-	Faults       map[string]int64 `json:"faults,omitempty"`
-	Ops          int              `json:"ops"`
-	OpsDone      int              `json:"ops_done"`
-	Dirty        bool             `json:"dirty,omitempty"` // goroutines left over: process must exit
-	HarnessError string           `json:"harness_error,omitempty"`
-	Trace        []string         `json:"trace,omitempty"`
-	MaxParkedNs  int64            `json:"max_parked_ns"`
-	UncontrolledY int64           `json:"uncontrolled_yields,omitempty"`
+	RunSeed       uint64           `json:"run_seed"`
+	Index         int              `json:"index"`
+	Violations    []Violation      `json:"violations,omitempty"`
+	Inconclusive  string           `json:"inconclusive,omitempty"`
+	Void          string           `json:"precondition_void,omitempty"`
+	Steps         int64            `json:"steps"`
+	SimNs         int64            `json:"sim_ns"`
+	Preempt       int              `json:"preemptions"`
+	TraceHash     string           `json:"trace_hash"`
+	SchedHash     uint64           `json:"sched_hash"`
+	Probes        map[string]int64 `json:"probes,omitempty"`
+	Faults        map[string]int64 `json:"faults,omitempty"`
+	Ops           int              `json:"ops"`
+	OpsDone       int              `json:"ops_done"`
+	Dirty         bool             `json:"dirty,omitempty"` // goroutines left over: process must exit
+	HarnessError  string           `json:"harness_error,omitempty"`
+	Trace         []string         `json:"trace,omitempty"`
+	MaxParkedNs   int64            `json:"max_parked_ns"`
+	UncontrolledY int64            `json:"uncontrolled_yields,omitempty"`
 }
 
 // ---------------------------------------------------------------------------
@@ -240,9 +241,9 @@ type Env struct {
 	stop    bool
 	OpsDone int
 	// PCT state
-	prio    map[string]int
-	chg     map[int64]bool
-	nextLow int
+	prio         map[string]int
+	chg          map[int64]bool
+	nextLow      int
 	LastProgress time.Time
 	frozen       atomic.Bool // set when the loop has ended: later events are ignored
 	// OnPanic is set by the world: a panic in any controlled goroutine that
@@ -609,6 +610,10 @@ func execute(c *Case, w World, runSeed uint64, replayTape []int64, replay bool, 
 		}
 		e.HarnessError(fmt.Sprintf("panic in goroutine %s: %v\n%s", name, v, stack))
 	}
+	e.RT.OnRace = func(msg string) {
+		// a map that can be read and written at once breaks whatever property the run is about
+		e.Violate(c.Prop, "unsynchronised_access", "%s", msg)
+	}
 	defer zsimrt.End()
 	func() {
 		defer func() {
@@ -618,6 +623,8 @@ func execute(c *Case, w World, runSeed uint64, replayTape []int64, replay bool, 
 		}()
 		zsimrt.SetDense(c.Sched.Dense)
 		defer zsimrt.SetDense(false)
+		zsimrt.SetAsyncTimers(c.Sched.OldTimers)
+		defer zsimrt.SetAsyncTimers(false)
 		if PreSetup != nil {
 			PreSetup()
 		}
